@@ -81,7 +81,7 @@ PROPERTIES = {
         ],
     },
     "C10": {
-        "modules": ["contracts.core_models", "contracts.c02_frontend", "contracts.c10_frontend", "contracts.c10_subset"],
+        "modules": ["contracts.core_models", "contracts.c02_frontend", "contracts.c10_frontend", "contracts.c10_subset", "contracts.c11_frames"],
         "level": "other",
         "explanation": "PROVED from the real source (tracer state abstracted to the calls the code makes): the comparison dispatch (nested single_compare: reflected method with swapped operands, 6 operators x implemented / NotImplemented on either side), the binary operator dispatch (nested overloaded_operator: lhs.__op__ first, rhs.__rop__ when that is missing or NotImplemented, rejection when neither applies), all()/any() over mixed constant / run-time elements (and/or yield the truth value; arrangements up to 3 elements), list and dict comprehensions with 0-2 conjunctive conditions over up to 3 elements (symbolic condition values). BOUNDED (labelled, never counted as proved): FunctionDefinition.bind_args against the CPython call itself for every signature shape (<= 2 positional-only, <= 2 positional-or-keyword, <= 2 keyword-only parameters, optional *args / **kwargs, all default patterns, functions and bound methods) and every call shape (<= n+1 positional arguments, <= 3 keywords incl. a foreign name): same binding, or a rejection exactly when CPython raises TypeError. Also PROVED: zero-argument super() binds to the __class__ cell of the defining class and the first argument (method of a middle class on an instance of a subclass). Also BOUNDED: PrepareAst._split_target against the CPython assignment statement (<= 5 targets, star anywhere or absent, sources of 0..7 elements: same split, rejection exactly on ValueError) and _ScopeBase._capture_env against LEGB (closure cell before module global before builtin, every placement of one free name). Added later: PROVED from the real source, the keyword collection of a call (apply_impl, ast.Call: explicit keywords and ** mappings in every order; a keyword given twice or a non-string key is rejected as CPython does) and the default values of local functions / lambdas (bound as the values CPython binds, in CPython's order); BOUNDED: bind_args leaves the caller's argument containers untouched (frame), the starred target is a list for list and tuple sources, the definition compiled for a functools.wraps wrapper is the wrapper's.",
         "assumptions": COMMON_ASSUME + [
